@@ -23,6 +23,7 @@ import OapiVerif.Model.RefPath
 import OapiVerif.Model.Form
 import OapiVerif.Model.TypeDedup
 import OapiVerif.Model.Bodies
+import OapiVerif.Model.RespDefs
 /-!
 Line-protocol driver: one JSON object per line in, one per line out.
 `{"fn": <name>, ...}` ↦ `{"ok": <result>}` or `{"err": "bad-op"}` (never a default).
@@ -390,6 +391,14 @@ def bodyDefsD (j : Json) : Except String Json := do
     ("supported", Json.bool b.supported), ("client", Json.bool (b.supportedByClient E)), ("fixed", Json.bool b.fixedContentType),
     ("suffix", nums b.suffix), ("type", nums (b.typeName op.toList))]).toArray)
 
+/-- `GenerateResponseDefinitions`, refs: responses in ascending order of the status code as [code bytes, ref bytes] (empty
+ref = not a reference); result = the ref of each definition. -/
+def respDefsD (j : Json) : Except String Json := do
+  let a ← j.getObjValAs? (Array (Array (Array Nat))) "responses"
+  let rs : List RespDefs.RIn := a.toList.map fun r => ⟨r[0]!.toList, if r[1]!.isEmpty then none else some r[1]!.toList⟩
+  let nums (l : List Nat) : Json := Json.arr (l.map fun (c : Nat) => Json.num (JsonNumber.fromNat c)).toArray
+  pure (Json.arr ((RespDefs.respDefs rs).map fun o => Json.arr #[nums o.code, nums (o.ref.getD [])]).toArray)
+
 /-- `constructImportMapping`: [[document bytes, package path bytes]] ↦ [[document, name, path]] -/
 def importMapD (j : Json) : Except String Json := do
   let a ← j.getObjValAs? (Array (Array (Array Nat))) "mapping"
@@ -676,6 +685,7 @@ def dispatch (fn : String) (j : Json) : Except String Json :=
   | "genTypes" => genTypesD j
   | "importMap" => importMapD j
   | "bodyDefs" => bodyDefsD j
+  | "respDefs" => respDefsD j
   | "schemaKeys" => schemaKeysD j
   | "comment" => commentD j
   | "commentSpaces" => commentSpacesD j
